@@ -48,8 +48,26 @@ class DateTime(Parseable[datetime]):
             raise InvalidContent(buf) from exc
         return cls(when, string.value), after
 
+    _months = ('Jan', 'Feb', 'Mar', 'Apr', 'May', 'Jun',
+               'Jul', 'Aug', 'Sep', 'Oct', 'Nov', 'Dec')
+
+    @classmethod
+    def _format(cls, when: datetime) -> str:
+        # date-time = DQUOTE date-day-fixed "-" date-month "-" date-year
+        #             SP time SP zone DQUOTE
+        # strftime() is not used: %b and %X depend on the locale, %Y is not
+        # padded to four digits and %z may include seconds.
+        offset = when.utcoffset()
+        seconds = 0 if offset is None else \
+            offset.days * 86400 + offset.seconds
+        sign = '-' if seconds < 0 else '+'
+        zone_hours, zone_minutes = divmod(abs(seconds) // 60, 60)
+        return '%02d-%s-%04d %02d:%02d:%02d %s%02d%02d' % (
+            when.day, cls._months[when.month - 1], when.year,
+            when.hour, when.minute, when.second,
+            sign, zone_hours, zone_minutes)
+
     def __bytes__(self) -> bytes:
         if self._raw is None:
-            raw_str = self.value.strftime('%d-%b-%Y %X %z')
-            self._raw = bytes(raw_str, 'ascii')
+            self._raw = bytes(self._format(self.value), 'ascii')
         return BytesFormat(b'"%b"') % (self._raw, )
